@@ -38,10 +38,10 @@ def suite_random(seed, n, profile, prefix):
 def c01_suites(tier, seed):
     q = tier == "quick"
     s = []
-    s.append(("rand-deep", suite_random(seed, 120 if q else 3000, {"families": ["deep", "short"]}, "rd")))
-    s.append(("rand-mixed", suite_random(seed + 1, 80 if q else 2000, {"families": ["deep", "mid", "tiny", "short", "huge"], "txs": 5}, "rm")))
-    s.append(("rand-buckets", suite_random(seed + 2, 80 if q else 2000, {"families": ["tiny", "short", "deep"], "p_bucket_ops": 0.4, "nest": 4}, "rb")))
-    s.append(("rand-4096", suite_random(seed + 3, 20 if q else 500, {"families": ["mid", "tiny", "deep"], "pagesize": 4096, "ops": 200, "txs": 4}, "r4")))
+    s.append(("rand-deep", suite_random(seed, 120 if q else 10000, {"families": ["deep", "short"]}, "rd")))
+    s.append(("rand-mixed", suite_random(seed + 1, 80 if q else 6000, {"families": ["deep", "mid", "tiny", "short", "huge"], "txs": 5}, "rm")))
+    s.append(("rand-buckets", suite_random(seed + 2, 80 if q else 6000, {"families": ["tiny", "short", "deep"], "p_bucket_ops": 0.4, "nest": 4}, "rb")))
+    s.append(("rand-4096", suite_random(seed + 3, 20 if q else 1500, {"families": ["mid", "tiny", "deep"], "pagesize": 4096, "ops": 200, "txs": 4}, "r4")))
     # directed enumerations: every contiguous delete range over 1-, 2-, 3-level trees
     s.append(("growth", hists_of(jgen.gen_growth(seed, 1 if q else 8))))
     s.append(("enum-2leaf", hists_of(jgen.gen_range_deletes(5, klen=8, vlen=300, prefix="e5"))))
@@ -74,23 +74,23 @@ def c07_suites(tier, seed):
     q = tier == "quick"
     prof = {"read_after_every_op": True, "p_reads": 0.05, "p_delete": 0.45, "ops": 40, "txs": 4, "p_drop": 0.3}
     s = []
-    s.append(("rao-deep", suite_random(seed, 60 if q else 1500, dict(prof, families=["deep", "short"]), "wd")))
-    s.append(("rao-buckets", suite_random(seed + 1, 40 if q else 1000, dict(prof, families=["tiny", "deep"], p_bucket_ops=0.35), "wb")))
-    s.append(("emptied-leaves", hists_of(jgen.gen_emptied_leaves(40, seed, 40 if q else 400))))
+    s.append(("rao-deep", suite_random(seed, 60 if q else 6000, dict(prof, families=["deep", "short"]), "wd")))
+    s.append(("rao-buckets", suite_random(seed + 1, 40 if q else 4000, dict(prof, families=["tiny", "deep"], p_bucket_ops=0.35), "wb")))
+    s.append(("emptied-leaves", hists_of(jgen.gen_emptied_leaves(40, seed, 40 if q else 1500))))
     return s
 
 
 def c08_suites(tier, seed):
     q = tier == "quick"
     s = []
-    s.append(("queries", hists_of(jgen.gen_queries(seed, 12 if q else 200))))
+    s.append(("queries", hists_of(jgen.gen_queries(seed, 12 if q else 800))))
     prof = {"p_reads": 0.6, "p_delete": 0.15, "ops": 80, "txs": 4}
-    s.append(("rand-reads", suite_random(seed, 60 if q else 1500, dict(prof, families=["deep", "short"]), "qr")))
-    s.append(("prefix-queries", hists_of(jgen.gen_prefix_queries(seed, 30 if q else 100))))
+    s.append(("rand-reads", suite_random(seed, 60 if q else 6000, dict(prof, families=["deep", "short"]), "qr")))
+    s.append(("prefix-queries", hists_of(jgen.gen_prefix_queries(seed, 30 if q else 120))))
     # queries inside a transaction that has emptied whole leaves at the tail / head of the key space
     s.append(("emptied-tail", hists_of(jgen.gen_emptied_leaves(40, seed + 9, 13 if q else 60))))
     # keys that are prefixes of one another, in trees whose leaves get merged
-    s.append(("prefix-keys", suite_random(seed + 7, 40 if q else 1000, dict(prof, families=["prefix", "prefix", "deep"], p_delete=0.4, p_reads=0.4), "qp")))
+    s.append(("prefix-keys", suite_random(seed + 7, 40 if q else 4000, dict(prof, families=["prefix", "prefix", "deep"], p_delete=0.4, p_reads=0.4), "qp")))
     return s
 
 
@@ -98,10 +98,10 @@ def c05_suites(tier, seed):
     q = tier == "quick"
     chk = {"p_dbcheck": 1.0, "file": True}
     s = []
-    s.append(("bucket-deletes", suite_random(seed + 10, 150 if q else 4000, dict(chk, families=["tiny", "short", "deep"], p_bucket_ops=0.5, nest=4, p_delete=0.2), "bd")))
-    s.append(("rand-deep", suite_random(seed + 11, 120 if q else 3000, dict(chk, families=["deep", "short"]), "fd")))
-    s.append(("rand-mixed", suite_random(seed + 12, 80 if q else 2000, dict(chk, families=["deep", "mid", "tiny", "short", "huge"], txs=5), "fm")))
-    s.append(("rand-4096", suite_random(seed + 13, 20 if q else 500, dict(chk, families=["mid", "tiny", "deep"], pagesize=4096, ops=200, txs=4), "f4")))
+    s.append(("bucket-deletes", suite_random(seed + 10, 150 if q else 12000, dict(chk, families=["tiny", "short", "deep"], p_bucket_ops=0.5, nest=4, p_delete=0.2), "bd")))
+    s.append(("rand-deep", suite_random(seed + 11, 120 if q else 9000, dict(chk, families=["deep", "short"]), "fd")))
+    s.append(("rand-mixed", suite_random(seed + 12, 80 if q else 6000, dict(chk, families=["deep", "mid", "tiny", "short", "huge"], txs=5), "fm")))
+    s.append(("rand-4096", suite_random(seed + 13, 20 if q else 1500, dict(chk, families=["mid", "tiny", "deep"], pagesize=4096, ops=200, txs=4), "f4")))
     import random
     r = random.Random(seed)
     rs = [(i, j) for i in range(40) for j in range(i + 1, 41)]
@@ -120,19 +120,19 @@ def c05_suites(tier, seed):
 
 def c06_suites(tier, seed):
     q = tier == "quick"
-    return [("rollback-ro", hists_of(jgen.gen_c06(seed, 60 if q else 1500))),
-            ("rollback-4096", hists_of(jgen.gen_c06(seed + 5, 10 if q else 200, pagesize=4096)))]
+    return [("rollback-ro", hists_of(jgen.gen_c06(seed, 60 if q else 6000))),
+            ("rollback-4096", hists_of(jgen.gen_c06(seed + 5, 10 if q else 800, pagesize=4096)))]
 
 
 def c03_suites(tier, seed):
     q = tier == "quick"
-    return [("readers", hists_of(jgen.gen_c03(seed, 60 if q else 2000, k_readers=4 if q else 8)))]
+    return [("readers", hists_of(jgen.gen_c03(seed, 60 if q else 6000, k_readers=4 if q else 8)))]
 
 
 def c10_suites(tier, seed):
     q = tier == "quick"
     return [("soak", hists_of(jgen.gen_c10(seed, 9 if q else 48, ntx=100 if q else 1500))),
-            ("readers", hists_of(jgen.gen_c03(seed + 3, 20 if q else 500, k_readers=2)))]
+            ("readers", hists_of(jgen.gen_c03(seed + 3, 20 if q else 1500, k_readers=2)))]
 
 
 C16_PAGESIZES = [1024, 1032, 2048, 3000, 4096, 5000, 16384, 65536, 1048576]
@@ -813,7 +813,7 @@ def c11_runner(prop, tier, seed, scratch, spec):
     n_cases = n_ok = 0
     fault_kinds = collections.Counter()
     variants = []
-    for idx in range(2 if q else 10):
+    for idx in range(2 if q else 40):
         # base history; the last committed write transaction is the one that will be faulted
         prof = {"families": ["deep", "tiny"], "txs": 3, "ops": 30, "p_drop": 0.0, "p_reopen": 0.0, "p_dbcheck": 0.0, "p_bucket_ops": 0.2,
                 "file": False, "numpages": 16 if idx % 2 else 64, "big_values": idx % 2 == 1}
